@@ -648,8 +648,9 @@ class Reaction(Object):
         # make the old genes aware they are no longer involved in this reaction
         for g in old_genes.difference(new_genes):
             try:
+                was_listed = self in g._reaction
                 self._dissociate_gene(g)
-                if context:
+                if context and was_listed:
                     context(partial(self._associate_gene, g))
             except KeyError:
                 warn(f"could not remove old gene {g.id} from reaction {self.id}")
